@@ -26,10 +26,12 @@ Fuel == 30
 Sx == S(<<115>>)
 
 \* script 1 uses the result of the host function; script 2 only calls it (so it may be void)
-Script1 == << Asg("x", Ref("v")), Bump("n"),
+\* (both read the field G first: a field has been looked up before the names v, n and F - variables, possibly
+\* shadowing a field - are)
+Script1 == << Asg("y", Ref("G")), Asg("x", Ref("v")), Bump("n"),
               Asg("r", CallE("h", <<LitI(1), Ref("v"), <<"lit", Sx>>, Ref("F")>>)),
               Ret(Ref("r")) >>
-Script2 == << Asg("x", Ref("v")), Bump("n"),
+Script2 == << Asg("y", Ref("G")), Asg("x", Ref("v")), Bump("n"),
               <<"expr", CallE("h", <<Ref("n"), Ref("v")>>)>>,
               <<"expr", CallE("h", <<Ref("F")>>)>>,
               Ret(<<"arr", <<Ref("v"), Ref("n")>>>>) >>
@@ -40,7 +42,7 @@ HKinds == << <<"val", I(7)>>, <<"val", B(FALSE)>>, <<"val", N>>, <<"val", Sx>>, 
 \* what the specification's host table holds for a kind
 HostKind(k) == IF k[1] = "single" THEN <<"val", k[2]>> ELSE k
 
-Objs == << <<<<"F", I(10)>>>>, <<<<"F", Sx>>>>, <<>> >>
+Objs == << <<<<"F", I(10)>>, <<"G", I(1)>>>>, <<<<"F", Sx>>, <<"G", I(2)>>>>, <<>> >>
 
 \* post-Prepare actions
 Acts == << <<"run", 1>>, <<"run", 2>>, <<"exec", 1>>, <<"exec", 2>>, <<"exec", 3>>, <<"get", "x">>, <<"get", "n">>, <<"get", "r">>, <<"get", "zz">>,
